@@ -64,6 +64,11 @@ SpecialWords == {<<105, 110, 102>>,
                  <<105, 110, 102, 49>>,
                  <<110, 97, 110, 120>>,
                  <<105, 110, 102, 105, 110, 105, 116>>}
+\* string bodies the small alphabet cannot spell: every escape other than \\ and \" is illegal, whatever follows the backslash
+SpecialBodies == {<<BSL, 110>>, <<BSL, 116>>, <<BSL, 48>>, <<BSL, 39>>, <<BSL, 120, 52, 49>>, <<97, BSL, 117, 123, 52, 49, 125>>,
+                  <<BSL, 117, 123, 68, 56, 48, 48, 125>>, <<BSL, 117, 123, 49, 49, 48, 48, 48, 48, 125>>, <<BSL, 117, 123, 125>>,
+                  <<BSL, 117>>, <<BSL, 85, 43, 52, 49>>, <<BSL, 13>>, <<BSL, 10>>, <<BSL, 32>>, <<BSL, BSL, 110>>, <<BSL, QUOTE, BSL, 110>>}
+\*                 \n  \t  \0  \'  \x41  a\u{41}  \u{D800}  \u{110000}  \u{}  \u  \U+41  \CR  \LF  \space  \\n (legal)  \"\n
 Init == s = <<>>
 Next == Len(s) < MaxLen /\ \E c \in Alphabet : s' = Append(s, c)
 
@@ -94,6 +99,9 @@ Case(w, src) ==
    fk |-> IF lx.ok /\ lx.kf1 THEN LowerWord(w) ELSE <<>>]
 Emit == /\ (Len(s) >= 1 => \A src \in Sources : PrintT(ToJson(Case(s, src))))
         /\ (s = <<>> /\ Family = "words" => \A w \in SpecialWords : \A src \in SourcesOf(w) : PrintT(ToJson(Case(w, src))))
+        /\ (s = <<>> /\ Family = "strings" =>
+              \A b \in SpecialBodies : LET src == <<QUOTE>> \o b \o <<QUOTE>> IN
+                 PrintT(ToJson(Case(b, src))) /\ PrintT(ToJson(Case(b, <<108, 101, 110, 32>> \o src \o <<43, 49>>))))
 
 RECURSIVE ConcatTexts(_, _)
 ConcatTexts(ts, i) == IF i > Len(ts) THEN <<>> ELSE ts[i].x \o ConcatTexts(ts, i + 1)
